@@ -259,7 +259,7 @@ func runC09(ctx *harness.Ctx) {
 	}
 	runStreams(ctx, streamOpts{
 		shortLen: ctx.Pick(3, 4), soup: ctx.Pick(2000, 40000), mutant: ctx.Pick(5000, 80000), nesting: ctx.Pick(20, 100),
-		valid: ctx.Pick(3000, 40000), unbalanced: ctx.Pick(3000, 40000), entriesPerSrc: 3,
+		valid: ctx.Pick(3000, 40000), unbalanced: ctx.Pick(3000, 40000), entriesPerSrc: 3, long: ctx.Pick(400, 6000),
 	}, fn)
 }
 
@@ -506,7 +506,7 @@ func runC10(ctx *harness.Ctx) {
 	}
 	runStreams(ctx, streamOpts{
 		shortLen: ctx.Pick(3, 4), soup: ctx.Pick(2000, 40000), mutant: ctx.Pick(5000, 80000), nesting: ctx.Pick(20, 100),
-		valid: ctx.Pick(300, 3000), unbalanced: ctx.Pick(6000, 80000), entriesPerSrc: 3,
+		valid: ctx.Pick(300, 3000), unbalanced: ctx.Pick(6000, 80000), entriesPerSrc: 3, long: ctx.Pick(400, 6000),
 	}, fn)
 	_ = rapid.Bool
 }
